@@ -70,10 +70,13 @@ CHECKS = {
     },
     "C06": {
         "parts": {
-            "quick": [dict(harness="c06_parallel", variant="plain", runs=20000, tl=120)],
+            "quick": [dict(harness="c06_parallel", variant="plain", runs=20000, tl=120),
+                      # data races between iterations of the OpenMP loop: real threads under ThreadSanitizer, single inline rank
+                      dict(harness="c06_omp_tsan", variant="tsan", runs=480, tl=60)],
             "thorough": [dict(harness="c06_parallel", variant="plain", runs=400000, tl=1500, cfg="big=1"),
                          dict(harness="c06_parallel", variant="san", runs=40000, tl=500),
-                         dict(harness="c06_parallel", variant="plain", complex=True, runs=40000, tl=400, cfg="big=1")],
+                         dict(harness="c06_parallel", variant="plain", complex=True, runs=40000, tl=400, cfg="big=1"),
+                         dict(harness="c06_omp_tsan", variant="tsan", runs=30000, tl=600)],
         },
         "is_violation": any_nonok,
         "workload_keys": ["G", "calls", "hrep", "quads", "freqs", "P", "model", "wf", "nosym", "beta", "mp"],
@@ -137,7 +140,8 @@ def log(msg):
 def exe_for(part, built):
     key = (part["variant"], bool(part.get("complex")))
     if key not in built:
-        built[key] = buildmod.build(part["variant"], None, None, bool(part.get("complex")), verbose=True)
+        only = ["c06_omp_tsan"] if part["variant"] == "tsan" else None   # fibers are not annotated for TSan: only the inline single-rank harness is built there
+        built[key] = buildmod.build(part["variant"], None, only, bool(part.get("complex")), verbose=True)
     return built[key].get(part["harness"])
 
 
